@@ -30,7 +30,7 @@ def cases(tier, seed):
 
 def _cases(tier, seed):
     n1, n2, n3 = (400, 24, 12) if tier == "quick" else (3000, 200, 120)
-    ne = 600 if tier == "quick" else 6000
+    ne = 2400 if tier == "quick" else 8000
     return ([{"cls": "function", "k": k} for k in range(n1)] + [{"cls": "classes", "k": k} for k in range(n2)]
             + [{"cls": "reused_buffer", "k": k} for k in range(n3)] + [{"cls": "edge_sweep", "k": 20000 + k, "edge": [k, ne // 4]} for k in range(ne)])
 
